@@ -477,6 +477,28 @@ fn positioned(r: &mut Report, rng: &mut Rng, n: u64) -> Vec<Vec<u8>> {
     out
 }
 
+/// frames of every shape (and structured random ones) as hex lines, for the engines outside this process
+pub fn generate(a: &Args) {
+    use std::io::Write;
+    let mut rng = Rng::new(a.seed, a.shard, "C07gen");
+    let out = std::io::stdout();
+    let mut out = std::io::BufWriter::new(out.lock());
+    let reps = if a.thorough() { 40 } else { 3 };
+    for (i, (_, gen)) in shapes().iter().enumerate() {
+        if (i as u64) % a.nshards != a.shard {
+            continue;
+        }
+        for _ in 0..reps {
+            writeln!(out, "{}", hexs(&gen(&mut rng))).unwrap();
+        }
+    }
+    for _ in 0..a.budget(40_000, 2_000_000) {
+        let df = *rng.pick(&[17u8, 17, 18, 20, 21, 4, 5, 0, 16, 11, 19, 24]);
+        writeln!(out, "{}", hexs(&common::structured(&mut rng, df))).unwrap();
+    }
+    out.flush().unwrap();
+}
+
 pub fn run(a: &Args, r: &mut Report) {
     r.rule = "shape space enumerated completely: DF 0..31 x (DF18: CF 0..7) x TC 0..31 x 3-bit subtype x (TC31: version 0..7) and DF20/21 x register hypothesis (x BDS 3,0 threat type 0..3), each shape filled N times with boundary-biased bits (N = 6 quick, 400 thorough); plus random structured frames; plus the positioned family: 2-7 position reports of one aircraft (each with an altitude of its own) (both parities, either first, mostly alternating, 0.2-3 s apart and sometimes 10-15 s or 30-170 s, airborne and surface, with and without a reference) at poles, polar caps, 87 degrees, NL transitions, the equator and mid latitudes, serialised after decode_positions has filled in the position (as jet1090 and decode1090 do) and also sent through the decode1090 executable. distinct_nontrivial = distinct ACCEPTED frames whose JSON passed every check".into();
     if let Some(p) = &a.replay {
